@@ -10,21 +10,22 @@ MODE = 'goals'
 COQ_IMPORTS = ['Check', 'C15_Model']
 SHARD = 2
 CASE_TIMEOUT = 400
-PREAMBLE = 'Definition bgoal (b : bool) : Prop := b = true.\nDefinition nbgoal (b : bool) : Prop := b = false.\n'
+PREAMBLE = ('Definition bgoal (b : bool) : Prop := b = true.\nDefinition nbgoal (b : bool) : Prop := b = false.\n'
+            'Definition sqdiff15 (a b : pd) : Q := Qred (qsum (map (fun kv => Qmult (Qminus (snd kv) (get0 (fst kv) b)) (Qminus (snd kv) (get0 (fst kv) b))) a)).\n')
 RULE = ('joint distributions of 2..4 small variables from the structured generator (zeros, functional supports, names, any base) with random disjoint assignments of the variables to '
         'the roles of each optimiser (multi-variable, unsorted groups; empty or non-empty conditioning), random auxiliary bounds, and parameter vectors: uniform box, with all-zero rows, '
         'random / uniform / copy / constant initial points, returned optima (niter=1). Optimisers: intrinsic TC / DTC / CAEKL, minimal intrinsic TC, one-way SKAR, secrecy capacity, '
-        'rate-distortion (Hamming), information bottleneck, DeWeese TC / co-information, hypercontractivity. Functional wrappers for the bounds. Non-trivial: >= 2 outcomes.')
+        'rate-distortion (Hamming), information bottleneck, DeWeese TC / co-information, hypercontractivity, Wyner and exact common information. Functional wrappers for the bounds. Non-trivial: >= 2 outcomes.')
 TRUSTED = ['Coq 8.16.1 kernel incl. vm_compute; Coq-Interval',
            'Python driver: float -> exact rational conversion, symbol -> rank encoding, per-class table of the quantity each objective is documented to be',
            'the parsed variable groups (opt._true_rvs / _true_crvs), shapes, bases and bounds of the auxiliary variables are read from the optimiser object',
            'model C15_Model.v hand-written; the SciPy optimisation itself is not modelled']
 ASSUMPTIONS = ['tensors agree to 1e-12, information quantities to 1e-9; construct_distribution drops probabilities below 1e-6 and renormalises, so its restriction to the original variables is compared '
                'to 1e-4 and its conditional independences to 1e-4 bits',
-               'Wyner / exact common information (MarkovVarOptimizer) rearrange the joint and meet the input only at feasible points: not covered; bounds are checked with tolerance 1e-3 (niter small)']
+               'Wyner / exact common information (MarkovVarOptimizer) meet the input only at feasible points: the joint, its axis rearrangement, the objective and the constraint value are checked, not construct_distribution; bounds are checked with tolerance 1e-3 (niter small)']
 CODES = {'corr': 'k = index+1 of first false goal (see goal_labels); 90 = python-side violation', 'prop': 'same'}
 T9 = Fraction(1, 10 ** 9)
-KINDS = ['itc', 'idtc', 'icaekl', 'mitc', 'owskar', 'seccap', 'rdham', 'ib', 'dwtc', 'dwcoi', 'hyper', 'ib']
+KINDS = ['itc', 'idtc', 'icaekl', 'mitc', 'owskar', 'seccap', 'rdham', 'ib', 'dwtc', 'dwcoi', 'hyper', 'ib', 'wyner', 'exact']
 XKINDS = ['box', 'box', 'zero_rows', 'random', 'uniform', 'copy', 'constant', 'optimum']
 
 
@@ -73,7 +74,7 @@ def generate(rng, tier):
             continue
         n = spec['n']
         nroles = {'itc': 3, 'idtc': 3, 'icaekl': 3, 'mitc': 3, 'owskar': 3, 'seccap': 3, 'rdham': rng.choice([1, 2]), 'ib': 3 if (spec['n'] >= 3 and rng.random() < 0.8) else 2,
-                  'dwtc': rng.choice([2, 3]), 'dwcoi': rng.choice([2, 3]), 'hyper': 2}[kind]
+                  'dwtc': rng.choice([2, 3]), 'dwcoi': rng.choice([2, 3]), 'hyper': 2, 'wyner': rng.choice([2, 3]), 'exact': rng.choice([2, 3])}[kind]
         if kind in ('itc', 'idtc', 'icaekl', 'mitc') and n >= 4 and rng.random() < 0.4:
             nroles = 4
         roles = split_roles(rng, n, nroles)
@@ -85,8 +86,11 @@ def generate(rng, tier):
         case = {'kind': kind, 'spec': spec, 'roles': roles, 'xkind': rng.choice(XKINDS), 'xseed': rng.randrange(10 ** 6),
                 'bound': rng.choice([None, None, 1, 2, 3]), 'bound2': rng.choice([None, 1, 2]), 'beta': rng.choice([0.0, 0.5, 1.0, 2.5]) if kind != 'ib' else rng.choice([0.5, 1.0, 2.5]),
                 'crv_empty': kind in ('dwtc', 'dwcoi') and rng.random() < 0.5, 'byname': byname}
-        if kind in ('mitc', 'owskar') and case['xkind'] == 'optimum':
+        if kind in ('mitc', 'owskar', 'wyner', 'exact') and case['xkind'] == 'optimum':
             case['xkind'] = 'random'
+        if kind in ('wyner', 'exact'):
+            case['crv_empty'] = len(roles) == 2 or rng.random() < 0.5
+            case['bound'] = rng.choice([2, 2, 3])
         cases.append(case)
     while len(cases) < 63 * mult:
         spec = G.gen_spec(rng, nmin=3, nmax=3, amax=2, max_ss=8, klasses=('str', 'int'), allow_expl=False, allow_names=False)
@@ -131,6 +135,13 @@ def build(case, d):
         if case['crv_empty']:
             return cls(d, rvs=[N(g) for g in roles], crvs=None)
         return cls(d, rvs=[N(g) for g in roles[:-1]], crvs=N(roles[-1])) if len(roles) > 2 else cls(d, rvs=[N(g) for g in roles], crvs=None)
+    if kind in ('wyner', 'exact'):
+        from dit.multivariate.common_informations.wyner_common_information import WynerCommonInformation
+        from dit.multivariate.common_informations.exact_common_information import ExactCommonInformation
+        cls = WynerCommonInformation if kind == 'wyner' else ExactCommonInformation
+        if case['crv_empty']:
+            return cls(d, rvs=[N(g) for g in roles], crvs=None, bound=case['bound'])
+        return cls(d, rvs=[N(g) for g in roles[:-1]], crvs=N(roles[-1]), bound=case['bound'])
     if kind == 'hyper':
         from dit.divergences.hypercontractivity_coefficient import HypercontractivityCoefficient
         return HypercontractivityCoefficient(d, rv_x=N(roles[0]), rv_y=N(roles[1]), bound=case['bound'])
@@ -207,11 +218,24 @@ def observe(case):
     x = make_x(opt, case)
     x = np.asarray(x, dtype=float)
     xin = x.copy()
+    markov = case['kind'] in ('wyner', 'exact')
     res['groups'] = [list(g) for g in opt._true_rvs] + [list(opt._true_crvs)]
+    if markov:
+        # the Markov optimisers keep the first variable and the conditioning proxy, and regenerate the others from (Z, W)
+        res['all_groups'] = res['groups']
+        res['groups'] = [res['groups'][0], res['groups'][-1]]
+        res['to_match'] = [float(v) for v in opt._pmf_to_match.ravel()]
     res['shape'] = [int(s) for s in opt._pmf.shape]
     res['pmf'] = [float(v) for v in opt._pmf.ravel()]
     res['aux'] = [[sorted(int(b) for b in av.bases), int(av.bound), int(av.size)] for av in opt._aux_vars]
-    J = opt.construct_joint(x)
+    if markov:
+        from dit.algorithms.optimization import BaseAuxVarOptimizer
+        J0 = BaseAuxVarOptimizer.construct_joint(opt, x)
+        J = opt.construct_joint(x)
+        res['J0'] = [float(v) for v in J0.ravel()]
+        res['constraint'] = float(opt.constraint_match_joint(xin.copy()))
+    else:
+        J = opt.construct_joint(x)
     res['x_same'] = bool((x == xin).all())
     res['x'] = [float(v) for v in xin]
     res['J'] = [float(v) for v in J.ravel()]
@@ -268,6 +292,8 @@ def observe(case):
     res['extra'] = extra
     # the distribution with its auxiliary variables
     try:
+        if markov:
+            raise KeyError('skip')
         cd = opt.construct_distribution(xin.copy())
         tab = []
         naux = len(opt._aux_vars)
@@ -281,7 +307,8 @@ def observe(case):
         res['cdist'] = tab
         res['cdist_len'] = int(cd.outcome_length())
     except Exception as e:
-        res['cdist_error'] = repr(e)[:300]
+        if not markov:
+            res['cdist_error'] = repr(e)[:300]
     res['src_same'] = G.snapshot(d) == before
     return res
 
@@ -364,6 +391,12 @@ def objective_term(case, o, J, nv):
         return 'oscale15 ((-1)#1) (tc_data %s %d%%nat %s %s)' % (J, nv, nll([[i] for i in aux]), nl([crv]))
     if k == 'dwcoi':
         return 'oscale15 ((-1)#1) (coi_data %s %d%%nat %s %s)' % (J, nv, nll([[i] for i in aux]), nl([crv]))
+    if k in ('wyner', 'exact'):
+        # permuted layout: X_1 .. X_k, Z, W
+        kk = nv - 2
+        if k == 'wyner':
+            return 'cmi_data15 %s %d%%nat %s %s %s' % (J, nv, nl(list(range(kk))), nl([kk + 1]), nl([kk]))
+        return 'ent_data %s %d%%nat %s %s' % (J, nv, nl([kk + 1]), nl([kk]))
     return None
 
 
@@ -406,6 +439,7 @@ def to_coq(case, o):
             add(ged('Some (RConst %s)' % lib.qf(o['relevance']), 0.0, Fraction(1, 10 ** 6)), 'relevance non-negative')
         item['defs'] = '\n'.join(defs)
         return item
+    markov = case['kind'] in ('wyner', 'exact')
     vals = o['pmf'] + o['x'] + o['J'] + ([] if case['kind'] == 'hyper' else [o['objective']])
     if not all(math.isfinite(v) for v in vals):
         item['pyviolation'] = 'non-finite tensor entry or objective'
@@ -428,14 +462,26 @@ def to_coq(case, o):
     defs.append('Definition %s_B : pd := Eval vm_compute in (base_tensor %s_t %s).' % (nm, nm, nll(groups)))
     defs.append('Definition %s_J : pd := Eval vm_compute in (attach (base_shape %s_t %s) %s_B %s_avs).' % (nm, nm, nll(groups), nm, nm))
     # information quantities are evaluated on dit's own tensor (53-bit rationals), once it is shown to be the model joint to 1e-12
-    defs.append('Definition %s_O : pd := Eval vm_compute in (combine (map fst %s_J) %s).' % (nm, nm, lib.qlist(o['J'])))
+    if markov:
+        defs.append('Definition %s_O : pd := Eval vm_compute in (combine (cart (map range %s)) %s).' % (nm, nl(o['Jshape']), lib.qlist(o['J'])))
+    else:
+        defs.append('Definition %s_O : pd := Eval vm_compute in (combine (map fst %s_J) %s).' % (nm, nm, lib.qlist(o['J'])))
     B, J = nm + '_B', nm + '_J'
     ng = len(groups)
     nv = len(o['Jshape'])
     add(bg('tensor_close %s %s && oeqb (base_shape %s_t %s) %s' % (B, lib.qlist(o['pmf']), nm, nll(groups), nl(o['shape']))),
         'proxy tensor _pmf and its shape')
-    add(bg('params_ok %s_avs [] && tensor_close %s %s && proper_joint %s && same_table c15_tol (drop_aux %d%%nat %s) %s' % (nm, J, lib.qlist(o['J']), J, ng, J, B)),
+    add(bg('params_ok %s_avs [] && tensor_close %s %s && proper_joint %s && same_table c15_tol (drop_aux %d%%nat %s) %s' % (nm, J, lib.qlist(o['J0'] if markov else o['J']), J, ng, J, B)),
         'construct_joint(x): equals the model joint, is a proper joint, and restricts to the proxy tensor')
+    if markov:
+        # layout after the two moveaxis calls: X_1, regenerated X_2..X_k, Z, W   (model layout: X_1, Z, W, X_2..X_k)
+        perm = [0] + list(range(3, nv)) + [1, 2]
+        add(bg('same_table c15_tol (map (fun kv => (proj %s (fst kv), snd kv)) %s) %s_O' % (nl(perm), J, nm)),
+            'Markov optimiser: construct_joint(x) is the model joint with the axes rearranged to (X_1..X_k, Z, W)')
+        allg = o['all_groups']
+        add(bg('qclose (1#1000000000) (Qmult (100#1) (sqdiff15 (dense_over (base_shape %s_t %s) (pushforward (firstn %d%%nat) %s_O)) (base_tensor %s_t %s))) %s'
+               % (nm, nll(allg), nv - 1, nm, nm, nll(allg), lib.qf(o['constraint']))),
+            'constraint_match_joint(x) = 100 * squared distance between the W-marginal of the joint and the input tensor')
     JM = J
     J = nm + '_O'
     big = len(o['J']) > 64          # interval goals over a few hundred terms take minutes: structural goals only
